@@ -1311,6 +1311,106 @@ func c15PoolChurn(id string, rounds int, seed int64) core.Scenario {
 	}}
 }
 
+// many short-lived queues: every round 1..4 producers (Offer / Put, the channel is pre-filled so that the overflow path
+// with its loader wake-up is taken) and 0..2 consumers use a fresh BufferedChannelQueue while one goroutine closes it
+// after a PRNG-chosen number of yields. The window between an operation's unlock and its wake-up of the loader has no
+// hook point: it is only reachable by volume.
+func c15QueueChurn(id string, rounds int, seed int64) core.Scenario {
+	return core.Scenario{ID: id, Class: "BufferedChannelQueue.churn", Run: func(c *core.Ctx) {
+		d := director.Get()
+		d.Reset(seed)
+		d.Yield(2, "bcq.Offer.pooled", "bcq.Take.checked", "bcq.Poll.checked", "bcq.Poll.notified", "bcq.loader.checked", "bcq.Close.flagged", "bcq.Close.loadChClosed")
+		rng := rand.New(rand.NewSource(seed))
+		c.Eval(int64(rounds))
+		c.Distinct(id)
+		for r := 0; r < rounds; r++ {
+			producers, consumers := 1+rng.Intn(4), rng.Intn(3)
+			spin := rng.Intn(40)
+			capy := 1 + rng.Intn(2)
+			q := fpgo.NewBufferedChannelQueue[int](capy, 1+rng.Intn(6), 2)
+			q.SetLoadFromPoolDuration(50 * time.Microsecond)
+			for i := 0; i < capy; i++ {
+				q.Offer(-1)
+			}
+			var wg sync.WaitGroup
+			var mu sync.Mutex
+			panics := map[string]bool{}
+			note := func(pv any, where string) {
+				if pv != nil {
+					mu.Lock()
+					panics[core.NormalizePanic(fmt.Sprint(pv))+"@"+where] = true
+					mu.Unlock()
+				}
+			}
+			start := make(chan struct{})
+			for u := 0; u < producers; u++ {
+				wg.Add(1)
+				go func(u int) {
+					defer wg.Done()
+					<-start
+					note(core.Catch(func() {
+						for i := 0; i < 6; i++ {
+							if (u+i)%3 == 0 {
+								q.Put(u*10 + i)
+							} else {
+								q.Offer(u*10 + i)
+							}
+						}
+					}))
+				}(u)
+			}
+			for u := 0; u < consumers; u++ {
+				wg.Add(1)
+				go func(u int) {
+					defer wg.Done()
+					<-start
+					note(core.Catch(func() {
+						for i := 0; i < 4; i++ {
+							switch (u + i) % 3 {
+							case 0:
+								q.Poll()
+							case 1:
+								q.TakeWithTimeout(50 * time.Microsecond)
+							default:
+								q.Count()
+							}
+						}
+					}))
+				}(u)
+			}
+			close(start)
+			for i := 0; i < spin; i++ {
+				runtime.Gosched()
+			}
+			cp, cwhere := core.Catch(q.Close)
+			joined := make(chan struct{})
+			go func() { wg.Wait(); close(joined) }()
+			v, dump := core.AwaitOrStuck(joined, 2*time.Second, 60*time.Second, d.Total)
+			rep := map[string]any{"scenario": id, "round": r, "producers": producers, "consumers": consumers}
+			if cp != nil {
+				c.Violationf("queue-churn:close-panic:"+core.NormalizePanic(fmt.Sprint(cp)), rep, "BufferedChannelQueue.Close() racing %d producers / %d consumers panics: %v at %s", producers, consumers, cp, cwhere)
+			}
+			for k := range panics {
+				c.Violationf("queue-churn:user-panic:"+k, rep, "an operation racing Close panicked in the calling goroutine (round %d): %s", r, k)
+			}
+			if v == "stuck" {
+				c.Violationf("queue-churn:deadlock", map[string]any{"scenario": id, "goroutines": core.RepoGoroutineSummary(dump)}, "users of the queue never returned after Close (round %d)", r)
+				return
+			} else if v != "done" {
+				c.Inconclusive("watchdog in " + id)
+				return
+			}
+			if err := q.Offer(1); err != fpgo.ErrQueueIsClosed {
+				c.Violationf("after-close:Offer", rep, "Offer after Close returned %v (queue churn round %d)", err, r)
+			}
+			if c.NumViolations() > 0 {
+				return
+			}
+		}
+		time.Sleep(20 * time.Millisecond) // a panic in a library-owned goroutine kills the process a little later
+	}}
+}
+
 func r3keep(r int) bool { return r%3 != 0 }
 
 func c15Scenarios(c *core.Ctx, race bool) []core.Scenario {
@@ -1320,6 +1420,12 @@ func c15Scenarios(c *core.Ctx, race bool) []core.Scenario {
 			break
 		}
 		out = append(out, c15PoolChurn(fmt.Sprintf("pool-churn-%d-race%v", i, race), c.Pick(800, 2500), c.Seed*67+int64(i)))
+	}
+	for i := 0; i < c.Pick(10, 30); i++ {
+		if race && i >= 2 {
+			break
+		}
+		out = append(out, c15QueueChurn(fmt.Sprintf("queue-churn-%d-race%v", i, race), c.Pick(1500, 5000), c.Seed*71+int64(i)))
 	}
 	reps := c.Pick(1, 5)
 	if race {
@@ -1355,7 +1461,7 @@ func init() {
 		Meta: func(c *core.Ctx) core.Meta {
 			return core.Meta{
 				Level: "fault_enumeration",
-				Rule: "directed schedule enumeration, one scenario per child process: for every (component, operation, hook point after the operation's closed/done check) the user goroutine is parked at the point, Close() (or the coroutine's completion) runs to completion - or until it blocks on a lock the parked goroutine holds -, the user is released, both are awaited with the stuck detector, then post-close probes run. Handler {Post checked / blocked in send} and Actor {Send, Spawn} x channel capacity {0,2}; BufferedChannelQueue {Take, TakeWithTimeout, Poll (2 points), GetChannel, Offer (2 points), Put, Count} x {empty, pre-filled}, the loader and the node-pool goroutine parked at 6 points with a non-empty overflow, blocked consumers, three Offer / Put producers on a COMPLETELY full queue (5 capacity/buffer pairs, no consumer) with Close arriving at once or 3 ms later, everything-after-close; coroutines {caller past the done check, close parked after the flag / after the lock, YieldFrom after done, replies racing caller completion}; WorkerPool {Schedule checked/offered, worker at 4 points, idle workers, spawn loop, ScheduleWithTimeout on a full queue, after close} x isJobQueueClosedWhenClose {true,false}; " +
+				Rule: "directed schedule enumeration, one scenario per child process: for every (component, operation, hook point after the operation's closed/done check) the user goroutine is parked at the point, Close() (or the coroutine's completion) runs to completion - or until it blocks on a lock the parked goroutine holds -, the user is released, both are awaited with the stuck detector, then post-close probes run. Handler {Post checked / blocked in send} and Actor {Send, Spawn} x channel capacity {0,2}; BufferedChannelQueue {Take, TakeWithTimeout, Poll (2 points), GetChannel, Offer (2 points), Put, Count} x {empty, pre-filled}, the loader and the node-pool goroutine parked at 6 points with a non-empty overflow, blocked consumers, queue churn (thousands of short-lived queues: 1..4 producers on the overflow path and 0..2 consumers racing one Close each), three Offer / Put producers on a COMPLETELY full queue (5 capacity/buffer pairs, no consumer) with Close arriving at once or 3 ms later, everything-after-close; coroutines {caller past the done check, close parked after the flag / after the lock, YieldFrom after done, replies racing caller completion}; WorkerPool {Schedule checked/offered, worker at 4 points, idle workers, spawn loop, ScheduleWithTimeout on a full queue, after close} x isJobQueueClosedWhenClose {true,false}; " +
 					"a panic in a calling goroutine is caught by recover, a panic in a library goroutine kills the child and is attributed by the parent, the pool's panic handler must stay silent; plus PRNG stress (1..8 users, close after 0..400 us, yields at the hook points) and a -race pass. distinct_nontrivial = distinct scenarios",
 				Assumptions: []string{"an operation that raced the close may return a real item, empty/timeout/full or the closed error, but never an invented value",
 					"unsynchronised reads of Handler/Actor isClosed are reported by the race detector as part of the same finding and do not decide separately",
